@@ -179,3 +179,133 @@ def gen_sessions(ctx, binp, nsessions, nrounds, salt=0):
     worlds = l2gen.ta_worlds(ms, rnd, (nsessions + 1) // 2) + l2gen.balloons_worlds(ms, rnd, nsessions // 2)
     rnd.shuffle(worlds)
     return [gen_session(w, rnd, nrounds, i) for i, w in enumerate(worlds[:nsessions])]
+
+
+# ----------------------------------------------------------------------------------------------- race reports
+
+_HANDLER = re.compile(r"pkg/resmgr\.\(\*nriPlugin\)\.(Synchronize|RunPodSandbox|StopPodSandbox|RemovePodSandbox|CreateContainer|"
+                      r"StartContainer|UpdateContainer|StopContainer|RemoveContainer)((?:\.\w+)*)$")
+_RECONF = re.compile(r"pkg/resmgr\.\(\*resmgr\)\.(reconfigure|updateConfig)((?:\.\w+)*)$")
+_FETCH = re.compile(r"pkg/resmgr/cache\.\(\*pod\)\.goFetchPodResources\.func\d+")
+_LOCKFRAME = re.compile(r"pkg/resmgr\.\(\*resmgr\)\.(Lock|Unlock)$")
+
+_src_cache = {}
+
+
+def _source_path(path):
+    ov = os.environ.get("VERIF_OVERLAY")
+    if ov:
+        try:
+            rep = json.load(open(ov)).get("Replace", {})
+            if path in rep and rep[path]:
+                return rep[path]
+        except (OSError, ValueError):
+            pass
+    return path
+
+
+def _functions(path):
+    """name -> (first line, last line, line of the first exclusive m.Lock() or None) for every method/function of a Go file."""
+    if path in _src_cache:
+        return _src_cache[path]
+    tab = {}
+    try:
+        lines = open(_source_path(path)).read().split("\n")
+    except OSError:
+        lines = []
+    cur, start, lock = None, 0, None
+    for i, ln in enumerate(lines, 1):
+        m = re.match(r"func (?:\([^)]*\) )?(\w+)\(", ln)
+        if m and cur is None:
+            cur, start, lock = m.group(1), i, None
+        elif cur is not None:
+            if lock is None and re.search(r"(?<![A-Za-z])m\.Lock\(\)", ln) and not ln.strip().startswith("//"):
+                lock = i
+            if ln == "}":
+                tab[cur] = (start, i, lock)
+                cur = None
+    _src_cache[path] = tab
+    return tab
+
+
+def classify_side(frames):
+    """frames: [(function, file, line)] innermost first.  Returns {kind, locked, at}: the request handler the access
+    belongs to and whether it can be shown to have been made under the resource manager's lock: the stack passes through
+    the shadowing Lock()/Unlock() (the harness' own projection under the lock), or the handler's frame is past the line of
+    its m.Lock() in today's source."""
+    hs = []
+    for fn, fl, ln in frames:
+        m = _HANDLER.search(fn)
+        if m:
+            hs.append((m.group(1), m.group(1), m.group(2), fl, ln))
+            continue
+        m = _RECONF.search(fn)
+        if m:
+            hs.append(("Reconfigure", m.group(1), m.group(2), fl, ln))
+    top = next(("%s:%d" % (os.path.basename(fl), ln) for fn, fl, ln in frames if "/src/runtime/" not in fl and "/src/internal/" not in fl), "?")
+    if any(_FETCH.search(fn) for fn, _, _ in frames):
+        return {"kind": "PodResourcesFetch", "locked": False, "at": top}
+    if any("concdrv.rendezvous" in fn for fn, _, _ in frames):
+        return {"kind": "driver", "locked": True, "at": top}          # the driver stands for a handler that holds the lock
+    if not hs:
+        outer = next((fn for fn, fl, _ in reversed(frames) if "/src/runtime/" not in fl), "?")
+        return {"kind": "background:" + outer.split("/")[-1], "locked": False, "at": top}
+    plain = [h for h in hs if h[2] == ""]
+    kind, fname, _, fl, ln = (plain[-1] if plain else hs[-1])
+    locked = any(_LOCKFRAME.search(fn) for fn, _, _ in frames)
+    if not locked:
+        ent = _functions(fl).get(fname)
+        locked = bool(ent and ent[2] and ln > ent[2])
+    return {"kind": kind, "locked": locked, "at": top}
+
+
+_ACCESS = re.compile(r"^(Write|Read|Previous write|Previous read|Atomic \w+|Previous atomic \w+) at 0x[0-9a-f]+ by (?:goroutine \d+|main goroutine):\n((?:  .*\n)+)", re.M)
+_FRAME = re.compile(r"^  (\S+)\(\)\n\s+(\S+):(\d+)", re.M)
+
+
+def parse_race_log(text):
+    """Distinct race-detector reports -> records for Trace_Serialize."""
+    recs, seen = [], set()
+    for rep in text.split("==================\n"):
+        if "WARNING: DATA RACE" not in rep:
+            continue
+        sides = []
+        for m in _ACCESS.finditer(rep):
+            frames = [(a, b, int(c)) for a, b, c in _FRAME.findall(m.group(2))]
+            s = classify_side(frames)
+            s["op"] = m.group(1).lower()
+            s["frames"] = ["%s %s:%d" % (fn.split("/")[-1], os.path.basename(fl), ln) for fn, fl, ln in frames
+                           if "/src/runtime/" not in fl][:4]
+            sides.append(s)
+        if len(sides) < 2:
+            continue
+        key = " || ".join(sorted("%s@%s" % (s["kind"], ",".join(s["frames"][:2])) for s in sides))
+        if key in seen:
+            continue
+        seen.add(key)
+        recs.append({"ev": "race", "key": key, "sides": sides})
+    return recs
+
+
+_GOR = re.compile(r"^goroutine \d+ [^\n]*:\n((?:.+\n)+)", re.M)
+_GFRAME = re.compile(r"^(\S+)\(.*\)\n\t(\S+):(\d+)", re.M)
+
+
+def parse_crash(text):
+    """`fatal error: concurrent map ...` kills the process: the goroutines that are inside a request handler at that moment
+    are the sides of the unsynchronized access."""
+    m = re.search(r"fatal error: (concurrent map[^\n]*)", text)
+    if not m:
+        return None
+    tail = text[m.start():]
+    sides = []
+    for g in _GOR.finditer(tail):
+        frames = [(a, b, int(c)) for a, b, c in _GFRAME.findall(g.group(1))]
+        if not any("pkg/resmgr." in fn or "pkg/resmgr/cache." in fn for fn, _, _ in frames):
+            continue
+        s = classify_side(frames)
+        if s["kind"].startswith("background:"):
+            continue
+        s["frames"] = ["%s %s:%d" % (fn.split("/")[-1], os.path.basename(fl), ln) for fn, fl, ln in frames if "/src/runtime/" not in fl][:4]
+        sides.append(s)
+    return {"ev": "crash", "key": m.group(1), "what": m.group(1), "sides": sides}
